@@ -7,11 +7,12 @@ META = {"level": "proof",
                          "iomodel: int.to_bytes/from_bytes, uuid.UUID(bytes=)/.bytes, str.encode/bytes.decode as stated in pyvc/iomodel.py"],
         "assumptions": ["UTF-8 encode/decode are mutually inverse on well-formed data (axioms utf8/utf8inv)",
                         "UUID.bytes / UUID(bytes=) are mutually inverse on 16-byte strings (axioms u2b/b2u)"],
-        "explanation": "Leaf codecs (8 integer widths, bool, string, UUID, Offset) and Serialization.encode/decode top level are "
-                       "under contract and proved against the wire-format definition; the round trip is a lemma over the "
-                       "encode/decode contracts. Container codecs (sequence, set, mapping, tuple, variant), float/double and the "
-                       "codec dispatch are covered only by the bounded stand-in (random type trees x values against the "
-                       "independent reference codec), stated as bounded."}
+        "explanation": "Leaf codecs (8 integer widths, bool, string, UUID, Offset), the container codecs (sequence, set, mapping, "
+                       "tuple, variant; loop invariants for any number of elements; set/mapping encoders relative to the ghost "
+                       "iteration sequence of the collection) and Serialization.encode/decode top level are under contract and "
+                       "proved against the wire-format definition; the leaf round trip is a lemma over the encode/decode "
+                       "contracts. The round trip of whole nested values, IEEE bit patterns and the codec dispatch are covered "
+                       "only by the bounded stand-in (random type trees x values against the independent reference codec)."}
 
 bounded, replay_obligation = _io.make("C07", "random type trees x random values: decode(encode(v)) == v (floats bit for bit), decoder "
                                       "consumes exactly the encoder's bytes, node resolution of UUID/Offset; bytes compared with an "
